@@ -71,7 +71,18 @@ NestR(fs, s) == IF fs = <<>> THEN s ELSE <<Col(FALSE), Fn(Head(fs), NestR(Tail(f
 FuncNests == IF Scale = "quick" THEN { <<"not">>, <<"is", "not">>, <<"where", "has", "not">> }
              ELSE { <<"not">>, <<"is">>, <<"where">>, <<"has">>, <<"host">>, <<"not", "is">>, <<"is", "not">>, <<"where", "has", "not">>,
                     <<"not", "is", "where">> }
+(* "at any depth": chains of five, six and eight selector functions, with a sibling argument and a compound behind the
+   outermost function (what follows a deep block is in selector context again) *)
+DeepNests == { <<"not", "is", "where", "has", "not">>, <<"is", "not", "is", "not", "is", "where">>,
+               <<"not", "not", "not", "not", "not", "not", "not", "not">> }
+DeepInner == { <<Dl(".", FALSE), I("d", FALSE), Dl(">", TRUE), Dl(".", TRUE), I("e", FALSE)>>,
+               <<Dl(".", FALSE), I("deep", FALSE), Com(FALSE), Dl(".", TRUE), I("deep2", FALSE)>>,
+               <<I("li", FALSE), Dl(".", TRUE), I("a", FALSE)>> }
+SelDeep == { <<Dl(".", FALSE), I("x", FALSE), Col(FALSE),
+               Fn("is", NestR(fs, s) \o <<Com(FALSE), Dl(".", TRUE), I("shallow", FALSE)>>, FALSE), Dl(".", TRUE), I("tail", FALSE)>>
+             : fs \in DeepNests, s \in DeepInner }
 SelNested(lazy) == { <<Dl(".", FALSE), I("x", FALSE)>> \o NestR(fs, s) : fs \in FuncNests, s \in SelFew \cup SelTypePseudo }
+             \cup SelDeep
              \cup { <<Col(FALSE), Col(FALSE), Fn("slotted", s, FALSE)>> : s \in SelFew }
              \cup { <<I("li", FALSE), Col(FALSE), Fn("nth-child", <<Dim(29, "n", FALSE), Num(30, FALSE), I("of", TRUE)>> \o SetW(s, TRUE), FALSE)>> : s \in SelFew }
              \cup { <<Col(FALSE), Fn("not", <<Dl(".", w), I("a", FALSE), Com(FALSE), Dl(".", TRUE), I("b", FALSE)>>, FALSE), Dl(".", w), I("c", FALSE)>> : w \in BOOLEAN }
@@ -98,6 +109,9 @@ AfterStmt(r) == { <<StmtLayer, r>>, <<At("layer", <<I("a", TRUE)>>, "stmt", <<>>
 Wrappers(r) == IF Scale = "quick" THEN WrappersQ(r) ELSE WrappersT(r)
 
 FSel(lazy) == UNION { Wrappers(Rule(s, Red)) : s \in SelFew \cup SelNested(0) } \cup { <<Rule(s, Red)>> : s \in Sel2(0) }
+              (* a deep chain inside the prelude block of an at-rule: `@supports (selector(:not(:is(..(.s))))) { .y {} }` *)
+              \cup { <<At("supports", <<Par(<<Fn("selector", NestR(fs, <<Dl(".", FALSE), I("s", FALSE)>>), FALSE)>>, TRUE)>>, "rules",
+                         <<Rule(<<Dl(".", FALSE), I("y", FALSE)>>, Red)>>)>> : fs \in DeepNests \cup {<<"not">>} }
               \cup UNION { AfterStmt(Rule(s, Red)) : s \in IF Scale = "quick" THEN SelFew ELSE SelFew \cup SelNested(0) }
 
 -----------------------------------------------------------------------------
@@ -229,7 +243,9 @@ HostOpts == {[NoOpt EXCEPT !.host = hs, !.prefix = p, !.hostIs = hi] : hs \in BO
 -----------------------------------------------------------------------------
 (* @import placeholder (C18) *)
 ImportPaths == {"a.wxss", "./a b", "../x/y.css", "a*/b", "q'r", "q\"r", "50%", "~E~/~Z~", "~M~", "a?b#c&d=e",
-                "a%20b", "100%25off/%2A%2F", "%zz%2", "%", "%%41", "a+b c%2B", "a\\b"}
+                "a%20b", "100%25off/%2A%2F", "%zz%2", "%", "%%41", "a+b c%2B", "a\\b",
+                (* white space at either end of a path is part of the path (ASCII, no-break, ideographic, a tab) *)
+                " a.wxss", "a.wxss ", " ", "~I~a.wxss", "a~N~", "~T~a b~T~"}
 FImport(lazy) == { <<Import(f, p, l, s, m)>> : f \in {"string", "url"}, p \in ImportPaths, l \in {"none", "", "x"},
                                          s \in {<<>>, <<I("display", FALSE), Col(FALSE), I("grid", TRUE)>>},
                                          m \in {<<>>, <<I("screen", TRUE)>>, <<I("screen", TRUE), I("and", TRUE), Par(<<I("min-width", FALSE), Col(FALSE), Dim(3, "rpx", TRUE)>>, TRUE)>>} }
